@@ -190,6 +190,9 @@ def run(ctx):
         root_e = rng.choice(["eml", "dataset", "dataTable", "creator", "attribute", "methods", "project", "coverage", "access", "individualName", "alternateIdentifier"])
         t = tg.valid_tree(root_e, rng, maxdepth=rng.choice([1, 2, 3]), rep=rng.choice([1, 2]))
         plant(t, rng, tg, rng.choice([0, 1, 2, 3, 5]))
+        if rng.random() < 0.06:
+            # pruning may be asked of any node: a `metadata` element is opaque also when it is the node prune() is called on
+            t = impl.T("metadata", None, [impl.T(rng.choice(["zzForeign", "dataset", "unitList"]), "x", [impl.T("zzInner", "y"), impl.T("title", "t")])])
         # every field of a kept node is to stay as it was: give some nodes tails, extras and namespace maps - also a parent
         # that binds a prefix its children do not (set_nsmap(..., children=False) produces that)
         for pth, x in gen.nodes_of(t):
@@ -220,7 +223,7 @@ def run(ctx):
                     w = f"pruning a second time removed {[(n.name) for n, _ in again]}"
             except Exception as e:
                 w = f"second prune raised {type(e).__name__}"
-        if w is None and rng.random() < 0.5:
+        if w is None and root.name != "metadata" and rng.random() < 0.5:
             # the same node objects pruned again after an edit: plant an unknown element somewhere below the (now clean) root;
             # pruning removes exactly it and gives back the tree as it was before the planting
             kept_nodes = [n for n in walk(root) if n.name != "metadata" and not any(a.name == "metadata" for a in _ancestors(n))]
